@@ -435,15 +435,15 @@ Qed.
 
 (* ---------- observed traces ---------- *)
 
-Theorem run_obs_sound m : forall os s s' ls,
-  run_obs m s os = Some (s', ls) -> run m s ls = Some s'.
+Theorem run_obs_sound m : forall os s pend s' ls,
+  run_obs m s pend os = Some (s', ls) -> run m s ls = Some s'.
 Proof.
-  induction os as [|o os IH]; intros s s' ls H; cbn [run_obs] in H.
+  induction os as [|o os IH]; intros s pend s' ls H; cbn [run_obs] in H.
   - injection H as <- <-. reflexivity.
-  - destruct (elab m s o) as [l0|]; [|discriminate].
+  - destruct (elab m s pend o) as [[l0 p0]|]; [|discriminate].
     destruct (run m s l0) as [s1|] eqn:H1; [|discriminate].
-    destruct (run_obs m s1 os) as [[s2 l2]|] eqn:H2; [|discriminate].
-    injection H as <- <-. rewrite run_app, H1. now apply IH.
+    destruct (run_obs m s1 p0 os) as [[s2 l2]|] eqn:H2; [|discriminate].
+    injection H as <- <-. rewrite run_app, H1. eapply IH; eauto.
 Qed.
 
 Theorem replay_obs_sound m os s ls :
